@@ -372,64 +372,55 @@ def check_abort_wiring(chk, ix):
     ctx = ix.cls("behave.runner:Context")
     mr = ix.cls("behave.runner:ModelRunner")
 
-    def calls(fn, attr):
-        return [n for n in ast.walk(fn.node) if isinstance(n, ast.Call) and isinstance(n.func, ast.Attribute) and n.func.attr == attr]
-
     def fail(fn, witness, text):
         chk.fail(Finding("V7", fn.fullname, witness, text, file=fn.file, line=fn.lineno, stmt="def " + fn.name))
-    # 1. Context.abort -> _set_root_attribute("aborted", truthy)
-    ab = ctx.methods.get("abort")
-    if ab is None:
-        raise AnalysisError("anchor missing: Context.abort")
-    chk.instance("V7")
-    good = [c for c in calls(ab, "_set_root_attribute")
-            if len(c.args) >= 2 and isinstance(c.args[0], ast.Constant) and c.args[0].value == "aborted"
-            and isinstance(c.args[1], ast.Constant) and c.args[1].value is True]
-    if good:
-        chk.ok("V7", "Context.abort sets root attribute 'aborted' to True", nontrivial_key="ctx.abort")
-    else:
-        fail(ab, "Context.abort does not set root 'aborted'", "Context.abort() does not set the root attribute 'aborted' to True")
-    # 2. _set_root_attribute stores into the root frame under the given key
-    sr = ctx.methods.get("_set_root_attribute")
-    if sr is None:
-        raise AnalysisError("anchor missing: Context._set_root_attribute")
-    chk.instance("V7")
-    stores = [n for n in ast.walk(sr.node) if isinstance(n, ast.Assign) and isinstance(n.targets[0], ast.Subscript)
-              and "_root" in unparse(n.targets[0].value) and unparse(n.targets[0].slice) == sr.node.args.args[1].arg
-              and unparse(n.value) == sr.node.args.args[2].arg]
-    if stores:
-        chk.ok("V7", "_set_root_attribute stores value under attr in the root frame", nontrivial_key="set_root")
-    else:
-        fail(sr, "_set_root_attribute does not store root[attr]=value", "_set_root_attribute does not store the value under the attribute name in the root frame")
-    # 3. root frame initialised with aborted False and is the last frame searched by __getattr__
-    init = ctx.methods.get("__init__")
-    chk.instance("V7")
-    ok = False
-    for n in ast.walk(init.node):
-        if isinstance(n, ast.Dict):
-            for k, v in zip(n.keys, n.values):
-                if isinstance(k, ast.Constant) and k.value == "aborted" and isinstance(v, ast.Constant) and v.value is False:
-                    ok = True
-    if ok:
-        chk.ok("V7", "root frame starts with aborted=False", nontrivial_key="root init")
-    else:
-        fail(init, "root frame lacks aborted=False", "Context root frame is not initialised with 'aborted': False")
-    # 4. ModelRunner.aborted getter returns context.aborted; setter/abort() route to the context
-    get = mr.methods.get("aborted")
-    if get is None or get.kind != "property":
-        raise AnalysisError("anchor missing: ModelRunner.aborted property")
-    chk.instance("V7")
-    rets = [unparse(n.value) for n in ast.walk(get.node) if isinstance(n, ast.Return) and n.value is not None]
-    if any(r.endswith("context.aborted") for r in rets):
-        chk.ok("V7", "ModelRunner.aborted returns context.aborted", nontrivial_key="runner.aborted")
-    else:
-        fail(get, "ModelRunner.aborted does not read context.aborted", "ModelRunner.aborted does not return the context's 'aborted' attribute (returns: %s)" % rets)
-    ra = mr.methods.get("abort")
-    chk.instance("V7")
-    if ra is not None and any(unparse(c.func).endswith("context.abort") for c in calls(ra, "abort")):
-        chk.ok("V7", "ModelRunner.abort delegates to context.abort", nontrivial_key="runner.abort")
-    else:
-        fail(ra or get, "ModelRunner.abort does not call context.abort", "ModelRunner.abort() does not delegate to Context.abort()")
+    # 1.-4. by evaluation, on a Context made by its own __init__: a new run is not aborted; after ModelRunner.abort() - and after
+    # context.abort() called from a deeper layer (a scenario frame pushed) - ModelRunner.aborted is true
+    for via in ("runner.abort()", "context.abort() in a pushed frame"):
+        stubs = {"weakref.proxy": lambda i, s_, a, k, n: [(s_, "val", a[0])], "@with": "transparent",
+                 "Context.use_with_user_mode": lambda i, s_, a, k, n: [(s_, "val", "USER-MODE")]}
+        it = Interp(ix, stubs=stubs, name="abort wiring")
+        it.shared_consts = True
+        it.int_sat = 100
+        it.list_cap = 100
+        st = State()
+        st.frames = []
+        cfg = st.alloc(HObj("ConfigTok", {"dry_run": False, "verbose": False}, open=True, label="config"))
+        runner = st.alloc(HObj(mr, {"config": cfg, "hooks": st.alloc(HObj("dict", kind="dict", items=[])), "hook_failures": 0}, open=True, label="runner"))
+        c = st.alloc(HObj(ctx, {}, label="context"))
+        o0 = it.call_function(st, ctx.lookup("__init__"), [runner], {}, None, self_val=c)
+        if len(o0) != 1 or o0[0][1] != "val":
+            raise AnalysisError("Context.__init__ not evaluable: %r" % ([(k, v) for _, k, v in o0][:2],))
+        cur = o0[0][0]
+        cur.wobj(runner).fields["context"] = c
+
+        def read(state):
+            r = it.get_attr(state, runner, "aborted", None)
+            if len(r) != 1 or r[0][1] != "val":
+                raise AnalysisError("ModelRunner.aborted not evaluable: %r" % ([(k, v) for _, k, v in r][:2],))
+            tv = it.truth(r[0][0], r[0][2])
+            if len(tv) != 1:
+                raise AnalysisError("ModelRunner.aborted is not a definite value: %r" % (r[0][2],))
+            return tv[0][0], tv[0][1]
+        cur, before = read(cur)
+        if via.startswith("context"):
+            o1 = it.call_function(cur, ctx.lookup("_push"), ["scenario"], {}, None, self_val=c) if ctx.lookup("_push") else [(cur, "val", None)]
+            if len(o1) != 1 or o1[0][1] != "val":
+                raise AnalysisError("Context._push not evaluable: %r" % ([(k, v) for _, k, v in o1][:2],))
+            o2 = it.call_function(o1[0][0], ctx.lookup("abort"), [], {"reason": "user"}, None, self_val=c)
+        else:
+            o2 = it.call_function(cur, mr.lookup("abort"), [], {"reason": "user"}, None, self_val=runner)
+        if len(o2) != 1 or o2[0][1] != "val":
+            raise AnalysisError("%s not evaluable: %r" % (via, [(k, v) for _, k, v in o2][:2]))
+        cur, after = read(o2[0][0])
+        chk.absorb(it)
+        chk.instance("V7")
+        if before is False and after is True:
+            chk.ok("V7", {"abort through": via, "runner.aborted before": before, "after": after}, nontrivial_key=("abort", via))
+        else:
+            fail(ctx.lookup("abort"), "%s: aborted %s -> %s" % (via, before, after),
+                 "ModelRunner.aborted is %s on a fresh Context and %s after %s; expected False, then True: an abort requested by user code "
+                 "(or by --stop handling) must be what run_model reads when it decides to stop and to fail the run" % (before, after, via))
     # 5. the list model code appends undefined steps to (runner.undefined_steps) is the one run_model measures
     us = mr.methods.get("undefined_steps")
     rm = ix.func(RM)
